@@ -336,9 +336,20 @@ func (c *Classifier) LoadLicenses(dir string) error {
 
 	for _, f := range files {
 		relativePath := strings.Replace(f, dir, "", 1)
+		// filepath.Walk cleans the paths it reports, so dir need not be a literal
+		// prefix of f (trailing separator, "./" prefix). Derive the path below dir
+		// properly, keeping the leading separator the indexing below relies on.
+		if rel, err := filepath.Rel(dir, f); err == nil {
+			relativePath = fmt.Sprintf("%c%s", os.PathSeparator, rel)
+		}
 		sep := fmt.Sprintf("%c", os.PathSeparator)
 		segments := strings.Split(relativePath, sep)
 		if len(segments) < 3 {
+			c.tc.trace("Insufficient segment count for path: %s", relativePath)
+			continue
+		}
+		if len(segments) < 4 {
+			// category/name/variant needs three components after the leading separator.
 			c.tc.trace("Insufficient segment count for path: %s", relativePath)
 			continue
 		}
